@@ -114,7 +114,11 @@ func newChordMap(cmd *cobra.Command) (chord.Mapper, error) {
 
 func parseText(r io.Reader) (*ast.ChordList, error) {
 	lex := ast.NewLexer(r)
+	// goyacc prints its debug trace (--debug) with fmt.Printf: keep it off the result stream
+	stdout := os.Stdout
+	os.Stdout = os.Stderr
 	_ = ast.Parse(lex)
+	os.Stdout = stdout
 	return lex.Result, lex.Err()
 }
 
